@@ -19,6 +19,8 @@ const (
 	pC07
 	pC11
 	pC17
+	pC08
+	pC14
 )
 
 const fnPostNewEvent = "(*github.com/couchbaselabs/rosmar.Collection).postNewEvent"
@@ -33,15 +35,26 @@ type kvCtx struct {
 	snap int
 	h0   uint64 // hlc.highestTime before the call
 	t0   uint32 // clock (as expiry) before the call
+	f1, f2, fo, fk *dcpFeed // C08: feeds on this collection (via this / another handle), on another collection, keys-only
 }
 
 // kvBegin: arbitrary invariant-satisfying bucket with two collections that may
 // hold the same keys, one addressed (collection, key).
 func kvBegin(mask int) *kvCtx {
 	env := verifWorld(true, 2, 2)
-	// feed delivery and expiry scheduling are the subject of C08/C14, not of these clauses
-	verifCut(fnPostNewEvent)
 	k := &kvCtx{env: env, mask: mask, c: env.colls[0], coll: 1, key: verifKey("key")}
+	if mask&(pC08|pC14) == 0 {
+		// feed delivery and expiry scheduling are the subject of C08/C14, not of these clauses
+		verifCut(fnPostNewEvent)
+	}
+	if mask&pC08 != 0 {
+		b2 := env.b.copy()
+		c2 := b2._initCollection(verifCollName(0), 1)
+		k.f1 = verifAddFeed(k.c, false)
+		k.f2 = verifAddFeed(c2, false)
+		k.fk = verifAddFeed(c2, true)
+		k.fo = verifAddFeed(env.colls[1], false)
+	}
 	k.pre = verifGetDoc(env.db, k.coll, k.key)
 	k.snap = verifSnapshot(env.db)
 	k.h0 = hlc.highestTime
@@ -60,6 +73,13 @@ func isKeyExists(err error) bool   { return errors.Is(err, sgbucket.ErrKeyExists
 func (k *kvCtx) failed(label string) {
 	verifReach(label)
 	verifAssert(verifSameDB(k.env.db, k.snap), "an operation that returns an error changes nothing")
+	k.noEvents()
+}
+
+func (k *kvCtx) noEvents() {
+	if k.want(pC08) {
+		verifAssert(k.f1.events.list.Len()+k.f2.events.list.Len()+k.fk.events.list.Len()+k.fo.events.list.Len() == 0, "an operation that fails or is refused delivers no event")
+	}
 }
 
 // expOK: stored expiry is the absolute form of the given one (clock read between t0 and t1).
@@ -116,6 +136,9 @@ func (k *kvCtx) mutated(post verifDoc, newCas bool) {
 	if k.want(pC04) && newCas {
 		verifAssert(verifAnd(uint64(post.Cas) > k.h0, uint64(post.Cas) == hlc.highestTime), "stored CAS is the fresh HLC value, above every CAS handed out before")
 		verifAssert(verifAnd(verifBucketLastCas(k.env.db) == post.Cas, verifCollLastCas(k.env.db, k.coll) == post.Cas), "bucket and collection high-water marks record the new CAS")
+	}
+	if k.want(pC08) && newCas {
+		k.checkEvents(post)
 	}
 	if k.want(pC05) {
 		verifAssert(post.Present, "mutated key exists")
@@ -184,6 +207,7 @@ func stepAdd(mask int, raw bool) {
 	if !added {
 		verifReach("refused")
 		verifAssert(verifSameTable(k.env.db, k.snap, "documents"), "a refused insert leaves every document untouched")
+		k.noEvents()
 		return
 	}
 	verifReach("added")
